@@ -49,7 +49,7 @@ Known == {"Reset", "Skipped", "PutVerified", "Remove", "RunTask", "FailTask", "H
 \* position of the released body in the observed list of parked bodies before the step
 StepOf(e) == [ev |-> e.ev, s |-> prev, r |-> [st |-> Obs(e), res |-> e.res, out |-> e.out], g |-> g, g2 |-> 0, rb |-> RbOf(e),
               k |-> e.k, v |-> e.v, i |-> e.i, ni |-> e.ni, rg |-> e.rg, thr |-> thr,
-              has |-> SetOf(e.has), addrs |-> SetOf(e.addrs), tok |-> TokOf(e)]
+              has |-> SetOf(e.has), addrs |-> SetOf(e.addrs), tok |-> TokOf(e), tks |-> SetOf(e.tks)]
 
 \* ---- the model run alongside (drift)
 Observables(s) == [idx |-> s.idx, byDist |-> s.byDist, far |-> s.far, cache |-> CacheKeys(s.cache),
@@ -64,7 +64,7 @@ ObservedOf(e) == [idx |-> SetOf(e.idx), byDist |-> SetOf(e.byDist), far |-> e.fa
                   range |-> e.range, pay |-> e.pay, rb |-> RbOf(e)]
 \* the model step for line e from model state ms: released body = same position; note = same kind/key/value
 ModelStep(ms, e) ==
-    LET x == [ev |-> e.ev, s |-> ms, k |-> e.k, v |-> e.v, i |-> e.i, rg |-> e.rg, ni |-> e.ni, thr |-> thr]
+    LET x == [ev |-> e.ev, s |-> ms, k |-> e.k, v |-> e.v, i |-> e.i, rg |-> e.rg, ni |-> e.ni, thr |-> thr, tks |-> SetOf(e.tks)]
     IN IF e.ev \in {"RunTask", "FailTask"} /\ (e.i < 1 \/ e.i > Len(ms.tasks)) THEN {}
        ELSE IF e.ev = "HandleNote" /\ (e.ni < 1 \/ e.ni > Len(ms.notes)) THEN {}
        ELSE ModelResults(x)
